@@ -48,9 +48,11 @@ VARIABLES
   \* @type: Set(<<Int, Int>>);
   own,
   \* @type: Set(<<Int, Int>>);
-  failing
+  failing,
+  \* @type: Set(<<Int, Int>>);
+  rejected
 
-vars == <<counter, holder, pc, nxt, tmp, done, numbers, lost, dup, own, failing>>
+vars == <<counter, holder, pc, nxt, tmp, done, numbers, lost, dup, own, failing, rejected>>
 
 CInit == Threads = {1, 2, 3} /\ Reqs = 2 /\ Start = 0 /\ MaxNum = 6
 
@@ -68,25 +70,27 @@ Init == /\ counter = Start /\ holder = Free
         /\ own \in SUBSET AllReqs
         /\ failing \in SUBSET AllReqs
         /\ own \cap failing = {}
+        /\ rejected \in SUBSET AllReqs
+        /\ rejected \cap (own \cup failing) = {}
 
-Check(t) == /\ pc[t] = "check" /\ done[t] < Reqs
+Check(t) == /\ pc[t] = "check" /\ done[t] < Reqs /\ <<t, Cur(t)>> \notin rejected
             /\ pc' = [pc EXCEPT ![t] = IF <<t, Cur(t)>> \in own THEN "send" ELSE "acquire"]
-            /\ UNCHANGED <<counter, holder, nxt, tmp, done, numbers, lost, dup, own, failing>>
+            /\ UNCHANGED <<counter, holder, nxt, tmp, done, numbers, lost, dup, own, failing, rejected>>
 Acquire(t) == /\ pc[t] = "acquire" /\ holder = Free
               /\ holder' = t /\ pc' = [pc EXCEPT ![t] = "readid"]
-              /\ UNCHANGED <<counter, nxt, tmp, done, numbers, lost, dup, own, failing>>
+              /\ UNCHANGED <<counter, nxt, tmp, done, numbers, lost, dup, own, failing, rejected>>
 ReadForId(t) == /\ pc[t] = "readid"
                 /\ nxt' = [nxt EXCEPT ![t] = counter] /\ pc' = [pc EXCEPT ![t] = "readinc"]
-                /\ UNCHANGED <<counter, holder, tmp, done, numbers, lost, dup, own, failing>>
+                /\ UNCHANGED <<counter, holder, tmp, done, numbers, lost, dup, own, failing, rejected>>
 ReadForInc(t) == /\ pc[t] = "readinc"
                  /\ tmp' = [tmp EXCEPT ![t] = counter] /\ pc' = [pc EXCEPT ![t] = "write"]
-                 /\ UNCHANGED <<counter, holder, nxt, done, numbers, lost, dup, own, failing>>
+                 /\ UNCHANGED <<counter, holder, nxt, done, numbers, lost, dup, own, failing, rejected>>
 WriteInc(t) == /\ pc[t] = "write"
                /\ counter' = tmp[t] + 1 /\ pc' = [pc EXCEPT ![t] = "release"]
-               /\ UNCHANGED <<holder, nxt, tmp, done, numbers, lost, dup, own, failing>>
+               /\ UNCHANGED <<holder, nxt, tmp, done, numbers, lost, dup, own, failing, rejected>>
 Release(t) == /\ pc[t] = "release" /\ holder = t
               /\ holder' = Free /\ pc' = [pc EXCEPT ![t] = "send"]
-              /\ UNCHANGED <<counter, nxt, tmp, done, numbers, lost, dup, own, failing>>
+              /\ UNCHANGED <<counter, nxt, tmp, done, numbers, lost, dup, own, failing, rejected>>
 Send(t) == /\ pc[t] = "send" /\ <<t, Cur(t)>> \notin failing
            /\ IF <<t, Cur(t)>> \in own
                 THEN UNCHANGED <<numbers, dup>>
@@ -94,15 +98,19 @@ Send(t) == /\ pc[t] = "send" /\ <<t, Cur(t)>> \notin failing
                      /\ dup' = (dup \/ nxt[t] \in numbers \/ nxt[t] \in lost)
            /\ done' = [done EXCEPT ![t] = @ + 1]
            /\ pc' = [pc EXCEPT ![t] = "check"]
-           /\ UNCHANGED <<counter, holder, nxt, tmp, lost, own, failing>>
+           /\ UNCHANGED <<counter, holder, nxt, tmp, lost, own, failing, rejected>>
 Fail(t) == /\ pc[t] = "send" /\ <<t, Cur(t)>> \in failing
            /\ lost' = lost \cup {nxt[t]}
            /\ dup' = (dup \/ nxt[t] \in numbers \/ nxt[t] \in lost)
            /\ done' = [done EXCEPT ![t] = @ + 1]
            /\ pc' = [pc EXCEPT ![t] = "check"]
-           /\ UNCHANGED <<counter, holder, nxt, tmp, numbers, own, failing>>
+           /\ UNCHANGED <<counter, holder, nxt, tmp, numbers, own, failing, rejected>>
 
-Step(t) == Fail(t) \/ Check(t) \/ Acquire(t) \/ ReadForId(t) \/ ReadForInc(t) \/ WriteInc(t) \/ Release(t) \/ Send(t)
+Reject(t) == /\ pc[t] = "check" /\ done[t] < Reqs /\ <<t, Cur(t)>> \in rejected
+             /\ done' = [done EXCEPT ![t] = @ + 1]
+             /\ UNCHANGED <<counter, holder, pc, nxt, tmp, numbers, lost, dup, own, failing, rejected>>
+
+Step(t) == Reject(t) \/ Fail(t) \/ Check(t) \/ Acquire(t) \/ ReadForId(t) \/ ReadForInc(t) \/ WriteInc(t) \/ Release(t) \/ Send(t)
 Next == \E t \in Threads : Step(t)
 Spec == Init /\ [][Next]_vars
 
@@ -122,10 +130,13 @@ TypeOK == /\ counter \in Start .. MaxNum
           /\ dup \in BOOLEAN
           /\ own \in SUBSET AllReqs
           /\ failing \in SUBSET AllReqs
+          /\ rejected \in SUBSET AllReqs
 
 IndInv ==
   /\ TypeOK
   /\ own \cap failing = {}
+  /\ rejected \cap (own \cup failing) = {}
+  /\ \A t \in Threads : pc[t] # "check" => <<t, Cur(t)>> \notin rejected
   /\ ~dup
   /\ \A t \in Threads : InCS(t) => holder = t
   /\ holder # Free => InCS(holder)
@@ -140,7 +151,7 @@ IndInv ==
   /\ numbers \cap lost = {}
   /\ Flying \cup numbers \cup lost = Below(counter)
   (* the counter cannot run away: every number that was handed out belongs to a different completed request *)
-  /\ Cardinality(numbers \cup lost) = Cardinality({ r \in AllReqs \ own : r[2] <= done[r[1]] })
+  /\ Cardinality(numbers \cup lost) = Cardinality({ r \in AllReqs \ (own \cup rejected) : r[2] <= done[r[1]] })
 
 IndInit == IndInv
 
